@@ -48,9 +48,12 @@ var c15Ptrs = []string{"!null", "!one", "!kern", "!unmapped", "!high", "!run=409
 	// well-formed strings naming hostile file-system shapes: the tracer resolves them itself while the tracee is stopped
 	"fs-loopself", "fs-loopdir", "fs-looptwo", "fs-chain46", "fs-dotlink60", "fs-updots",
 	// well-formed strings naming procfs objects (the handler has a policy of its own for them and rewrites self -> pid)
-	"proc-self", "proc-1", "proc-self-updown", "proc-thread-self", "proc-self-fd", "proc-self-fd-up", "proc-self-root", "proc-self-cwd", "proc-bare", "proc-self-task-tid"}
+	"proc-self", "proc-1", "proc-self-updown", "proc-thread-self", "proc-self-fd", "proc-self-fd-up", "proc-self-root", "proc-self-cwd", "proc-bare", "proc-self-task-tid",
+	// components that cannot even be lstat'ed: below a regular file (ENOTDIR), longer than NAME_MAX (ENAMETOOLONG), below a
+	// directory without search permission is not possible for root; a NUL-free 5000-byte single component
+	"fs-notdir", "fs-notdir-deep", "fs-longcomp", "fs-longcomp-mid"}
 
-var c15Multi = []string{"thread-vs-exit", "kill-sibling", "child-dies-in-parent-trap", "vfork-storm", "many-children", "self-stop", "thread-storm", "kill-self-thread", "orphan-sleeper", "orphan-daemon", "kill-newborn", "kill-newborn"}
+var c15Multi = []string{"thread-vs-exit", "kill-sibling", "child-dies-in-parent-trap", "vfork-storm", "many-children", "self-stop", "thread-storm", "kill-self-thread", "orphan-sleeper", "orphan-daemon", "orphan-newgroup", "kill-newborn", "kill-newborn"}
 
 func c15GenCase(rt *rapid.T) c15Case {
 	c := c15Case{Handler: rapid.SampledFrom([]string{"record", "record", "filehandler"}).Draw(rt, "handler"), BanMask: rapid.Uint32().Draw(rt, "banmask"),
@@ -87,8 +90,9 @@ func c15GenCase(rt *rapid.T) c15Case {
 func c15Run(c c15Case, root string, rec *vh.Recorder) error {
 	var s probe.Script
 	existing := filepath.Join(root, "file")
-	killType := -1      // index of first main-line op that must end the run as Disallowed Syscall
-	eitherKill := false // an op after which both Disallowed Syscall and the program's own ending are acceptable
+	leavesGroup := false // a descendant left the process group: the tracer's clean-up does not reach it (not this property's subject)
+	killType := -1       // index of first main-line op that must end the run as Disallowed Syscall
+	eitherKill := false  // an op after which both Disallowed Syscall and the program's own ending are acceptable
 	reached := []int{}
 	longPath := root + "/" + strings.Repeat("d/", 1500) + "x" // ~3000+ bytes, valid length
 	tracedCall := func(sys string, parg string, dirfd uint64, flags uint64) int {
@@ -160,6 +164,14 @@ func c15Run(c c15Case, root string, rec *vh.Recorder) error {
 			return s.Str(root + "/" + strings.Repeat("dd/", 60) + "file")
 		case "fs-updots":
 			return s.Str(strings.Repeat("../", 1300) + strings.TrimPrefix(root, "/") + "/file")
+		case "fs-notdir":
+			return s.Str(root + "/file/x")
+		case "fs-notdir-deep":
+			return s.Str(root + "/file/x/../y/z")
+		case "fs-longcomp":
+			return s.Str(root + "/" + strings.Repeat("n", 300))
+		case "fs-longcomp-mid":
+			return s.Str(root + "/" + strings.Repeat("n", 256) + "/../file")
 		case "proc-self":
 			return s.Str("/proc/self")
 		case "proc-1":
@@ -305,6 +317,19 @@ func c15Run(c c15Case, root string, rec *vh.Recorder) error {
 				if op.N%3 == 0 {
 					call()
 				}
+			case "orphan-newgroup":
+				// a child that leaves the program's process group (setpgid) and outlives the main process: whatever becomes
+				// of it, the run itself has to end when the main process ends
+				s.Add("fork{")
+				s.Sys(sysNr["setpgid"], 0, 0)
+				if op.N%2 == 0 {
+					s.Add("sigign")
+				}
+				call()
+				s.Add("sleep:600000")
+				s.Add("}")
+				s.Add("sleep:5")
+				leavesGroup = true
 			case "orphan-daemon":
 				s.Add("fork{")
 				s.Add("fork{")
@@ -346,7 +371,7 @@ func c15Run(c c15Case, root string, rec *vh.Recorder) error {
 			os.Symlink(t, fmt.Sprintf("%s/c%d", root, i))
 		}
 	}
-	allow := append([]string{"fork", "vfork", "clone", "kill", "rt_sigprocmask"}, probeBaseAllow...)
+	allow := append([]string{"fork", "vfork", "clone", "kill", "rt_sigprocmask", "setpgid"}, probeBaseAllow...)
 	traced := append([]string{}, c02Calls...)
 	filter, err := buildFilter(allow, traced, libseccomp.ActionTrace)
 	if err != nil {
@@ -461,7 +486,10 @@ func c15Run(c c15Case, root string, rec *vh.Recorder) error {
 	}
 	if l := liveTagged(tr.Tag); len(l) > 0 {
 		killTagged(tr.Tag)
-		return vh.Violf("C15:survivor", "tagged processes alive after the run: %v", l)
+		if !leavesGroup {
+			return vh.Violf("C15:survivor", "tagged processes alive after the run: %v", l)
+		}
+		rec.Class("descendant-outside-the-process-group-survives(not judged here)", 1)
 	}
 	classes = append(classes, "handler="+c.Handler, "status="+res.Status.String())
 	rec.Case(c, hostileSeen, dedup(classes)...)
